@@ -61,7 +61,7 @@ fn invert(op: u8) -> Option<u8> {
 }
 
 /// every instruction index stored anywhere in a `Code`, visited mutably
-fn for_each_index(c: &mut Code, f: &mut dyn FnMut(&mut usize)) {
+pub fn for_each_index(c: &mut Code, f: &mut dyn FnMut(&mut usize)) {
     for i in c.insns.iter_mut() {
         match i {
             Insn::Branch(_, t) | Insn::Goto(t) | Insn::Jsr(t) => f(t),
